@@ -27,6 +27,18 @@ def evalc(mac, t):
     """constant folding for the state constants: `Enum::Variant as usize` of a field-less local enum becomes its
     discriminant (possibly behind a const fn helper, already inlined)"""
     t = norm(t)
+    # `Enum::Variant as usize` of an enum with explicit discriminants is lowered to `(<discriminant const> + 0) as usize`
+    if t[0] == 'bin' and t[1] in ('Add', 'AddWithOverflow', 'AddUnchecked'):
+        a_, b_ = evalc(mac, t[2]), evalc(mac, t[3])
+        if a_[0] == 'const' and b_[0] == 'const':
+            try:
+                return ('const', a_[1], str(int(str(a_[2])) + int(str(b_[2]))), None)
+            except ValueError:
+                pass
+    if t[0] == 'cast' and t[1] == 'IntToInt' and t[4][0] == 'bin':
+        i_ = evalc(mac, t[4])
+        if i_[0] == 'const':
+            return ('const', t[3], i_[2], None)
     if t[0] == 'cast' and t[4][0] == 'discr':
         t = t[:4] + (t[4][1],)
     if t[0] == 'cast' and t[4][0] == 'adt' and not t[4][3]:
